@@ -45,6 +45,9 @@ type c05Res struct {
 	Log        string
 	FirstCode  uint32
 	Repeatable bool
+	// First: "" = the canonical original was executed first and the re-encoding resubmitted; otherwise the
+	// RE-ENCODING was executed first and then resubmitted "reencoded-then-same-bytes" / "reencoded-then-canonical"
+	First string
 }
 
 type reenc struct {
@@ -353,17 +356,18 @@ func c05Exec(j c05Job) c05Res {
 		}
 	}
 	// (2) execute T, wait, resubmit
+	first, second := orig, wire
 	run := func(resubmit bool) (digests []string, out c05Res, err error) {
 		x, err := start()
 		if err != nil {
 			return nil, out, err
 		}
 		defer x.Close()
-		first, err := x.Block(harness.BlockSpec{Raw: [][]byte{orig}, NoCheck: true})
-		if err != nil || first == nil || len(first.Txs) != 1 {
+		fb, err := x.Block(harness.BlockSpec{Raw: [][]byte{first}, NoCheck: true})
+		if err != nil || fb == nil || len(fb.Txs) != 1 {
 			return nil, out, fmt.Errorf("executing the original: %v", err)
 		}
-		out.FirstCode = first.Txs[0].Code
+		out.FirstCode = fb.Txs[0].Code
 		for k := 1; k < j.Delay; k++ {
 			if _, err := x.Block(harness.BlockSpec{}); err != nil {
 				return nil, out, err
@@ -376,11 +380,11 @@ func c05Exec(j c05Job) c05Res {
 			}
 			digests = append(digests, r.Digest)
 		} else if j.Path == "check" {
-			chk := x.R.CheckTx(wire)
+			chk := x.R.CheckTx(second)
 			out.Code, out.Log = chk.Code, tail(chk.Log, 120)
 			return nil, out, nil
 		} else {
-			r, err := x.BlockAt(harness.BlockSpec{Raw: [][]byte{wire}, NoCheck: true}, true, nil)
+			r, err := x.BlockAt(harness.BlockSpec{Raw: [][]byte{second}, NoCheck: true}, true, nil)
 			if err != nil || r == nil {
 				return nil, out, fmt.Errorf("block with the resubmission: %v", err)
 			}
@@ -398,29 +402,55 @@ func c05Exec(j c05Job) c05Res {
 		}
 		return digests, out, nil
 	}
-	got, out, err := run(true)
-	if err != nil {
-		return c05Res{Err: err.Error()}
-	}
-	if out.FirstCode != 0 {
-		return c05Res{Skip: "the original did not execute successfully in this run"}
-	}
-	if j.Path == "check" {
-		if out.Code == 0 {
-			out.Replayed = true
-			out.Detail = "CheckTx accepted the resubmission"
+	judge := func() c05Res {
+		got, out, err := run(true)
+		if err != nil {
+			return c05Res{Err: err.Error()}
+		}
+		if out.FirstCode != 0 {
+			return c05Res{Skip: "the original did not execute successfully in this run"}
+		}
+		if j.Path == "check" {
+			if out.Code == 0 {
+				out.Replayed = true
+				out.Detail = "CheckTx accepted the resubmission"
+			}
+			return out
+		}
+		twin, _, err := run(false)
+		if err != nil {
+			return c05Res{Err: "twin: " + err.Error()}
+		}
+		for i := range twin {
+			if i >= len(got) || got[i] != twin[i] {
+				out.Replayed = true
+				out.Detail = fmt.Sprintf("state after block +%d differs from the twin without the resubmission (DeliverTx code %d)", i, out.Code)
+				break
+			}
 		}
 		return out
 	}
-	twin, _, err := run(false)
-	if err != nil {
-		return c05Res{Err: "twin: " + err.Error()}
+	out := judge()
+	if out.Err != "" || out.Skip != "" || out.Replayed || j.Op == 0 {
+		return out
 	}
-	for i := range twin {
-		if i >= len(got) || got[i] != twin[i] {
-			out.Replayed = true
-			out.Detail = fmt.Sprintf("state after block +%d differs from the twin without the resubmission (DeliverTx code %d)", i, out.Code)
-			break
+	// (3) the other way round: a re-encoding that is admitted on a fresh state (none on a tree that insists on
+	// the canonical encoding) may be the form in which the transaction is executed FIRST; then the very same
+	// bytes again, and the canonical form, must be refused as well (the replay lookup must know the
+	// transaction under whatever bytes it was executed in)
+	for _, alt := range []struct {
+		name   string
+		second []byte
+	}{{"reencoded-then-same-bytes", wire}, {"reencoded-then-canonical", orig}} {
+		first, second = wire, alt.second
+		r := judge()
+		if r.Err != "" {
+			return r
+		}
+		if r.Skip == "" && r.Replayed {
+			r.First = alt.name
+			r.Detail = "executed first in the re-encoded form, then resubmitted (" + alt.name + "): " + r.Detail
+			return r
 		}
 	}
 	return out
@@ -544,6 +574,9 @@ func c05(args []string) int {
 		if r.Replayed {
 			replayed++
 			sig := fmt.Sprintf("C05|took-effect-twice|kind=%s|reenc=%s|path=%s|index-lag=%d", kind, classOf[j.Name], j.Path, j.Lag)
+			if r.First != "" {
+				sig += "|order=" + r.First
+			}
 			if j.Sig == "prehash" {
 				sig += "|signed=prehash"
 			}
